@@ -80,9 +80,10 @@ class BayesianART(BaseART):
             The dataset.
 
         """
+        # cov_init may have been replaced through set_params since the last call
+        assert self.params["cov_init"].shape[0] == X.shape[1]
+        assert self.params["cov_init"].shape[1] == X.shape[1]
         if not hasattr(self, "dim_"):
-            assert self.params["cov_init"].shape[0] == X.shape[1]
-            assert self.params["cov_init"].shape[1] == X.shape[1]
             self.dim_ = X.shape[1]
         else:
             assert X.shape[1] == self.dim_
